@@ -14,7 +14,7 @@
 //! service, the XFR data provider, the callers.
 
 use super::tsig::{corrupt_in_transit, same_signed_content, strip_tsig};
-use super::xfr::{build_primary, serial_of, soa_spec, walk_str, Primary};
+use super::xfr::{build_primary_with, serial_of, soa_spec, walk_str, Primary};
 use super::xfr_server::Provider;
 use super::zonestore::{build_direct, content_as_walk, stored_name, walk_zone, Content, APEX};
 use crate::core::exec::{step, Exec};
@@ -526,14 +526,14 @@ enum Kind {
     DgramStream,
 }
 
-fn quiet_planner() -> Arc<dyn Fn(usize) -> ConnectPlan + Send + Sync> {
-    Arc::new(|_i| ConnectPlan {
+fn quiet_planner(segment_ok: bool) -> Arc<dyn Fn(usize) -> ConnectPlan + Send + Sync> {
+    Arc::new(move |_i| ConnectPlan {
         client_cfg: PipeCfg {
-            segment: sim::chance("net.segment", 1, 3),
+            segment: segment_ok && sim::chance("net.segment", 1, 3),
             ..Default::default()
         },
         server_cfg: PipeCfg {
-            segment: sim::chance("net.segment", 1, 3),
+            segment: segment_ok && sim::chance("net.segment", 1, 3),
             ..Default::default()
         },
         ..Default::default()
@@ -551,7 +551,11 @@ fn is_auth_error(e: &str) -> bool {
 }
 
 async fn run(prop: &'static str, _tier: Tier) {
-    let Primary { zone, contents, steps, .. } = match build_primary().await {
+    // One run in ten transfers a zone that needs more than one 64 KiB
+    // message (fewer than 100 RRsets, so that the server's zone walk never
+    // has to wait for its consumer).
+    let bulky = sim::chance("cfg.bulky", 1, 10);
+    let Primary { zone, contents, steps, .. } = match build_primary_with(if bulky { 70 + sim::draw("cfg.bulk_n", 15) as usize } else { 0 }).await {
         Some(p) => p,
         None => return,
     };
@@ -606,7 +610,7 @@ async fn run(prop: &'static str, _tier: Tier) {
     let mid_sock = udp.bind(mid_addr);
     exec.spawn("mb.dgram".to_string(), dgram_middlebox(led.clone(), mid_sock, server_addr, mode));
     let mid_listener = net::listener("mid");
-    exec.spawn("mb.stream".to_string(), stream_middlebox(exec.clone(), led.clone(), mid_listener.clone(), srv_listener.connector(addr(2, 30_000), quiet_planner()), mode));
+    exec.spawn("mb.stream".to_string(), stream_middlebox(exec.clone(), led.clone(), mid_listener.clone(), srv_listener.connector(addr(2, 30_000), quiet_planner(!bulky)), mode));
 
     // ---- the client transports (real)
     let mut dg_cfg = dgram::Config::new();
@@ -622,7 +626,7 @@ async fn run(prop: &'static str, _tier: Tier) {
     ms_cfg.set_response_timeout(Duration::from_millis(6000));
     let dg_planner: Arc<dyn Fn(usize) -> DgConnectPlan + Send + Sync> = Arc::new(|_i| DgConnectPlan::default());
     let mk_dg = || SimDgConnector::new(&udp, 10, mid_addr, DgramFaults::default(), dg_planner.clone());
-    let mk_st = || mid_listener.connector(addr(10, 40_000), quiet_planner());
+    let mk_st = || mid_listener.connector(addr(10, 40_000), quiet_planner(!bulky));
 
     type Plain = RequestMessage<Vec<u8>>;
     type PlainMulti = RequestMessageMulti<Vec<u8>>;
@@ -796,6 +800,9 @@ async fn run(prop: &'static str, _tier: Tier) {
     };
     ev!("transfer {} {} -> {} (journal {})", if ixfr { "IXFR" } else { "AXFR" }, i, j, have_journal);
     sim::stat(if ixfr { "probe.ixfr_over_transport" } else { "probe.axfr_over_transport" });
+    if bulky && !ixfr {
+        sim::stat("probe.axfr_beyond_one_64k_message");
+    }
     let mut complete: Vec<Content> = vec![sec_content.clone()];
     if ixfr {
         for c in contents.iter().take(j + 1).skip(i + 1) {
